@@ -265,3 +265,20 @@ func (P *Program) lookupFull(full string) *ssa.Function {
 	}
 	return nil
 }
+
+// lookupNamedType: the text "import/path.Name" names a type of a loaded package.
+func (P *Program) lookupNamedType(full string) bool {
+	i := strings.LastIndex(full, ".")
+	if i < 0 {
+		return false
+	}
+	path, name := full[:i], full[i+1:]
+	for _, sp := range P.Prog.AllPackages() {
+		if sp.Pkg.Path() == path || shortPkg(sp.Pkg.Path()) == path {
+			if _, ok := sp.Pkg.Scope().Lookup(name).(*types.TypeName); ok {
+				return true
+			}
+		}
+	}
+	return false
+}
